@@ -201,9 +201,13 @@ def register(M):
       "                if len(strip_line) == 0 or line_indent < state_indent:\n                    curr_state = TEXT",
       "                if len(strip_line) == 0:\n                    curr_state = TEXT",
       'a de-indented line after source is taken as a want')
+    M('F18_splitlines', ['C08', 'C13'], 'parser.py',
+      "    lines = re.split('\\\\r\\\\n|\\\\n|\\\\r', text)\n    if lines and lines[-1] == '':\n        lines.pop()\n    return lines",
+      "    return text.splitlines()",
+      'the docstring is split with str.splitlines() again (finding F18 undone)')
     M('C13_minindent', ['C13'], 'parser.py',
-      "            string = '\\n'.join([ln[min_indent:] for ln in string.splitlines()])",
-      "            string = '\\n'.join([ln.lstrip() if ln[:min_indent].strip() == '' and not ln.lstrip().startswith(('>', '.')) else ln[min_indent:] for ln in string.splitlines()])",
+      "            string = '\\n'.join([ln[min_indent:] for ln in _splitlines(string)])",
+      "            string = '\\n'.join([ln.lstrip() if ln[:min_indent].strip() == '' and not ln.lstrip().startswith(('>', '.')) else ln[min_indent:] for ln in _splitlines(string)])",
       'text lines lose all their indentation')
     M('C13_wantprompt', ['C13'], 'parser.py',
       "                elif _hasprefix(line.strip(), ('>>>',)):\n                    curr_state = DSRC\n                elif line_indent < state_indent:",
